@@ -822,6 +822,9 @@ def _r1(ctx):
                 ok = m == {"min_principal": "(..., 0)", "med_principal": "(..., 1)", "max_principal": "(..., 2)"}
             if ok:
                 ctx.holds(fi, d[0], "principals: ascending eigenvalues named min/med/max")
+            elif not d:
+                # the columns are not named in a dict display (comprehension over a table of names, ...): no culprit, undecided
+                raise AnalysisError("principals: the dict display naming the eigenvalue columns was not found")
             else:
                 ctx.violated(fi, d[0] if d else fi.node, "principals does not name the ascending eigenvalue columns "
                              "min_principal/med_principal/max_principal = [...,0]/[...,1]/[...,2]", text="principals columns")
@@ -1186,6 +1189,9 @@ def _r6(ctx):
     if isinstance(v, tuple) and v and v[0] == "maxabsdiff" and v[1] == allp:
         ctx.holds(f, f.node, "tresca = max over the three eigenvalue pairs |w_i - w_j| = w_max - w_min on every ordering")
     elif isinstance(v, tuple) and v and v[0] in ("maxabsdiff", "minabsdiff"):
+        if not v[1]:
+            # nothing of the form |w_i - w_j| was recognised among the candidates (table-driven loop, helper): no culprit, undecided
+            raise AnalysisError("tresca: the candidates of the reduction were not recognised as eigenvalue differences")
         ctx.violated(f, f.node, "tresca takes the %s over the eigenvalue pairs %s; it must be the maximum over all three pairs" %
                      (v[0][:3], sorted(map(sorted, v[1]))), text="tresca pairs")
     else:
